@@ -118,6 +118,7 @@ P(name) ==
     [] name = "C04_LifeBounds"   -> OnCall => C04_LifeBounds(I, e)
     [] name = "C16_Flush"        -> OnCall => C16_Flush(I, e)
     [] name = "C16_VecForward"   -> OnCall => C16_VecForward(I, e)
+    [] name = "C16_WrapperShape" -> OnCall => C16_WrapperShape(I, e)
     [] name = "C05_FftSmooth"    -> OnCall => C05_FftSmooth(I, e)
     [] name = "C06_Increasing"   -> OnCall => C06_Increasing(I, e)
     [] name = "C06_StepInRange"  -> OnCall => C06_StepInRange(I, e)
@@ -153,6 +154,7 @@ H_C04_Allocate == Hard("C04_Allocate")         S_C04_Allocate == Soft("C04_Alloc
 H_C04_LifeBounds == Hard("C04_LifeBounds")     S_C04_LifeBounds == Soft("C04_LifeBounds")
 H_C16_Flush == Hard("C16_Flush")               S_C16_Flush == Soft("C16_Flush")
 H_C16_VecForward == Hard("C16_VecForward")     S_C16_VecForward == Soft("C16_VecForward")
+H_C16_WrapperShape == Hard("C16_WrapperShape") S_C16_WrapperShape == Soft("C16_WrapperShape")
 H_C05_FftSmooth == Hard("C05_FftSmooth")       S_C05_FftSmooth == Soft("C05_FftSmooth")
 H_C06_Increasing == Hard("C06_Increasing")     S_C06_Increasing == Soft("C06_Increasing")
 H_C06_StepInRange == Hard("C06_StepInRange")   S_C06_StepInRange == Soft("C06_StepInRange")
